@@ -113,6 +113,19 @@ def ratAbs (r : Rat) : Rat := if r < 0 then -r else r
 def absTable (T : Table Rat) : Table Rat := ⟨T.dims, fun i => ratAbs (T.coef i)⟩
 def absRows (rs : List (Nat × List Rat)) : List (Nat × List Rat) := rs.map fun (s, fs) => (s, fs.map ratAbs)
 
+/-- magnitude companion of `Dind`: the two terms of every knot-difference step enter with their
+absolute values (for the rounding envelope of derivative evaluations) -/
+def Dmag (ind : Int → Bool) (t : Int → Rat) (x : Rat) : (k : Nat) → (n : Nat) → Int → Rat
+  | 0, n, i => ratAbs (Bind ind t x n i)
+  | _+1, 0, _ => 0
+  | k+1, n+1, i =>
+    ((n+1 : Nat) : Rat) * (Dmag ind t x k n i / ratAbs (t (i + n + 1) - t i) + Dmag ind t x k n (i+1) / ratAbs (t (i + n + 2) - t (i + 1)))
+
+def magRows : List (Dim Rat) → List Rat → List BasisMode → List (Nat × List Rat)
+  | d :: ds, x :: xs, m :: ms =>
+    (d.stride, (List.range d.naxes).map fun i => Dmag (selInd d x) d.knots x (derivOrder m) d.order (i : Nat)) :: magRows ds xs ms
+  | _, _, _ => []
+
 /-- exact part shared by V and D lines: model value, spec value, magnitude -/
 def exactPart (t : RawTable) (xs : List UInt64) (cs : List Nat) (ms : List BasisMode) : String :=
   match xs.mapM ratOfBits with
@@ -122,8 +135,9 @@ def exactPart (t : RawTable) (xs : List UInt64) (cs : List Nat) (ms : List Basis
     let model := evalModes T xr cs ms
     let rows := specRows T.dims xr ms
     let spec := specSum T.coef rows Arith.one 0
-    let mag := specSum (absTable T).coef (absRows rows) Arith.one 0
-    s!"{showRat model} {showRat spec} {showRat mag}"
+    let mag := specSum (absTable T).coef (magRows T.dims xr ms) Arith.one 0
+    let cmax := t.coef.foldl (fun m u => let r := ratAbs ((ratOfBits (Float32.ofBits u).toFloat.toBits).getD 0); if m < r then r else m) (0 : Rat)
+    s!"{showRat model} {showRat spec} {showRat mag} {showRat cmax}"
 
 def evalBits (t : RawTable) (prec : String) (xs : List UInt64) (cs : List Nat) (ms : List BasisMode) : UInt64 :=
   if prec == "d" then cbits (evalModes t.toF64 (xs.map fun u => (⟨Float.ofBits u⟩ : F64)) cs ms).v
@@ -158,6 +172,23 @@ def step (st : RawTable) (ws : List String) : RawTable × String :=
       if xs.length ≠ nd || cs.length ≠ nd then (st, "bad-input") else
       (st, s!"{evalBits st prec xs cs (maskModes nd m)}")
     | _, _, _ => (st, "bad-input")
+  | "E" :: prec :: rest =>
+    match natList (rest.take nd), bitsList ((rest.drop nd).take nd), natList (rest.drop (2*nd)) with
+    | some ks, some xs, some cs =>
+      if ks.length ≠ nd || xs.length ≠ nd || cs.length ≠ nd then (st, "bad-input") else
+      (st, s!"{evalBits st prec xs cs (derivModes ks)}")
+    | _, _, _ => (st, "bad-input")
+  | "G" :: prec :: rest =>
+    match bitsList (rest.take nd), natList (rest.drop nd) with
+    | some xs, some cs =>
+      if xs.length ≠ nd || cs.length ≠ nd then (st, "bad-input") else
+      let r : Option (List UInt64) :=
+        if prec == "d" then (ndsplineevalGradient maxDimDefault st.toF64 (xs.map fun u => (⟨Float.ofBits u⟩ : F64)) cs).map (·.map fun v => cbits v.v)
+        else (ndsplineevalGradient maxDimDefault st.toF32 (xs.map fun u => (⟨Float.ofBits u⟩ : F32)) cs).map (·.map fun v => cbits v.v)
+      match r with
+      | none => (st, "refused")
+      | some l => (st, " ".intercalate (l.map toString))
+    | _, _ => (st, "bad-input")
   | "D" :: prec :: rest =>
     match natList (rest.take nd), bitsList ((rest.drop nd).take nd), natList (rest.drop (2*nd)) with
     | some ks, some xs, some cs =>
